@@ -7,6 +7,7 @@ import Req.H3.Fields
 import Req.H2.FieldsX
 import Req.H2.WriteBlock
 import Req.H2.FrameRfc
+import Req.H3.Stream
 import Req.Driver.WireUtil
 /-! Driver lanes of C05 (HTTP/2 framer, QUIC varints, HTTP/3 frames/SETTINGS/field sections). -/
 namespace Req.Driver.L.C05
@@ -305,6 +306,45 @@ def laneH3Append : List String → String
   | _ => "bad-op"
 end h3
 
+/-! ### HTTP/3 receive loop and the SETTINGS specification -/
+section h3stream
+open Req.H3.Frame Req.H3.Stream
+
+def showEvent : Event → String
+  | .data p => "data:" ++ encodeHex p
+  | .headers p => "headers:" ++ encodeHex p
+  | .settings s => s!"settings:{b01 s.datagram}:{b01 s.extendedConnect}:{showOther (sortPairs s.other)}"
+  | .truncatedPayload l got => s!"trunc:{l}:{encodeHex got}"
+  | .err e => showH3Err e
+  | .eof => "eof"
+
+/-- `c05h3stream <bytes>` : the frame-level receive loop. -/
+def laneH3Stream : List String → String
+  | [h] => match decodeHex h with
+    | some b => ";".intercalate ((parseStream (b.length + 2) b).map showEvent)
+    | none => "bad-op"
+  | _ => "bad-op"
+
+instance (ps : List (Nat × Nat)) : Decidable (SettingsOK ps) := by unfold SettingsOK; infer_instance
+
+/-- `c05h3settingsspec <payload>` : the DECLARATIVE side of `h3_settings_accept_iff` /
+`h3_settings_eof_iff` evaluated on a payload: `ok <dg> <ec> <other>` when it is a sequence of
+complete pairs satisfying `SettingsOK`, `eof` when it ends inside a pair after acceptable pairs,
+`reject` otherwise. -/
+def laneH3SettingsSpec : List String → String
+  | [h] => match decodeHex h with
+    | some b =>
+      let r := decodePairs (b.length + 1) b
+      if SettingsOK r.1 then
+        if r.2 then "eof"
+        else
+          let s := settingsOf r.1
+          s!"ok {b01 s.datagram} {b01 s.extendedConnect} {showOther (sortPairs s.other)}"
+      else "reject"
+    | none => "bad-op"
+  | _ => "bad-op"
+end h3stream
+
 /-! ### HTTP/3 field sections -/
 section h3fields
 open Req.H3.Fields
@@ -489,6 +529,8 @@ def lanes : List (String × (List String → String)) := [
   ("c05wraw", laneWRaw),
   ("c05h2meta", laneH2Meta),
   ("c05h3next", laneH3Next),
+  ("c05h3stream", laneH3Stream),
+  ("c05h3settingsspec", laneH3SettingsSpec),
   ("c05h3settings", laneH3Settings),
   ("c05h3append", laneH3Append),
   ("c05h3fields", laneH3Fields)
